@@ -68,7 +68,7 @@ func forgedExchange(version, suite uint16, ms, cr, sr []byte, sizes []int, rgSee
 // C27 — Forged connections from shared secrets interoperate.
 func TestC27(t *testing.T) {
 	weak := os.Getenv("VERIF_WEAK") == "1"
-	r := mon.New("C27", "all 65536 suite ids x versions {1.0,1.1,1.2} (exhaustive) with random master secret/randoms; every non-nil client/server pair exchanges data of sizes {0,1,17,16384,40000} both ways; required-supported (id,version) pairs must be non-nil. Second child runs after EnableWeakCiphers. distinct = (suite id, version) pairs that produced a connection")
+	r := mon.New("C27", "all 65536 suite ids x versions {1.0,1.1,1.2} (exhaustive) with random master secret/randoms; every non-nil client/server pair exchanges data of sizes {0,1,17,16384,40000,150000,16384,16383} both ways (the last ones travel in full-size records); required-supported (id,version) pairs must be non-nil. Second child runs after EnableWeakCiphers. distinct = (suite id, version) pairs that produced a connection")
 	defer r.Finish(t)
 	r.Exhaustive(true)
 	if weak {
@@ -95,7 +95,9 @@ func TestC27(t *testing.T) {
 		}
 	}
 	r.Count("required_pairs", int64(len(required)))
-	sizes := []int{0, 1, 17, 16384, 40000}
+	// (the last sizes are past the point where dynamic record sizing has ramped up to
+	// full-size records: 16384-byte plaintexts, the largest a record may carry)
+	sizes := []int{0, 1, 17, 16384, 40000, 150000, 16384, 16383}
 	type job struct {
 		v, id uint16
 	}
